@@ -41,7 +41,7 @@ MANIFEST = dict(
           'model of the index functions of tile, repeat (scalar / per-element / axis None, every accepted axis incl. negative), roll (any shift, one axis / '
           'several axes incl. repeated ones = summed shifts / None), pad, take (negative and repeated entries, negative axes, None), concatenate, resize, '
           'compress, tril/triu, diagflat, tri/eye/identity, the stack family (through concatenate + flat-order preservation of reshape); one-axis / '
-          'equal-section cases of expand, sliding_window and split; diagonal for matrices with every offset (partial: rank 2). The model is tied to the '
+          'equal-section cases of expand, sliding_window and split; diagonal for every rank, accepted axis pair (incl. negative) and offset. The model is tied to the '
           'C++ by a differential run of every view over an exhaustive small scope on every check and cross-checked against NumPy / the documented '
           'definitions. The defects found on the original tree (negative axis in repeat / take / concatenate / stack / compress, negative take '
           'entries, repeated roll axes, diagonal with negative or too large offset, split cut points beyond the extent, arange negative count / negative '
@@ -58,7 +58,6 @@ ASSUMPTIONS = [
     'where: the broadcast rule is the simple right-aligned one (C06 proves the C++ broadcast_to equals it)',
 ]
 PARTIAL = [
-    'diagonal2d_*_partial: diagonal proved for rank 2, axes (0,1), every offset (negative, empty result); full statement (any rank, any accepted axis pair) kept in Props/C04.lean, under correspondence for every rank',
     'expand_*: proved for one axis (any accepted sign); several axes / per-axis spacings under correspondence only',
     'slidingWindow_*: proved for a scalar window on one axis; window lists, axis lists and axis None under correspondence only',
     'split_*: proved for N equal sections; cut-point lists under correspondence only',
